@@ -106,11 +106,12 @@ var c10Dribbles = func() []struct {
 	return out
 }()
 
-var c10Subst = []byte{0, 1, 2, 3, 4, 7, 8, 0x7F, 0x80, 0xFE, 0xFF}
+// (0xD8 / 0xDC: as the high byte of a UTF-16 code unit they make it a lone high / low surrogate)
+var c10Subst = []byte{0, 1, 2, 3, 4, 7, 8, 0x7F, 0x80, 0xFE, 0xFF, 0xD8, 0xDC}
 
 // c10SubstN is the number of substitutions tried per byte: the absolute values above and the original value
 // plus and minus 1..4 (lengths and counts that are slightly off).
-const c10SubstN = 11 + 8
+const c10SubstN = 13 + 8
 
 func c10SubstVal(orig byte, k int) byte {
 	if k < len(c10Subst) {
@@ -198,7 +199,7 @@ func (c10) NRuns(tier string) int {
 	return n + 20000
 }
 func (c10) Rule() string {
-	return "corruption faults on server responses: (enumerated) every byte of every response of the entry set (quick: one entry per package type and data-type family; thorough: the whole 467-entry zoo; plus the 123 disputed encodings) substituted by each of {0,1,2,3,4,7,8,0x7f,0x80,0xfe,0xff} and by its own value +-1..4 (a corrupted format is followed by a data package valid for the original format); every one-byte-length data type x every data length 0..255 with random data; packet headers with every length 0..9 and all message types; every format followed by 2..3 data tokens of its own and the other family; 43 announced packet sizes (negative, tiny, 8, beyond 16 and 32 bits, not numbers); after every response the client sends one more 600-byte request; 18 packages announcing 65535 items that arrive 1..9 bytes per packet; a quarter of the runs re-cut into packets of 1..64 body bytes, a fifth read 1..8 bytes at a time; (seeded) 2- and 4-byte windows overwritten with boundary integers, truncation plus garbage, known token followed by random bytes, format followed by arbitrary row bytes, purely random streams; DebugLogPackages on in a third of the runs; non-trivial = the corrupted bytes reached a package parser (not rejected at the packet layer); distinct = distinct (kind, subject, offset, value) / wire hash"
+	return "corruption faults on server responses: (enumerated) every byte of every response of the entry set (quick: one entry per package type and data-type family; thorough: the whole 467-entry zoo; plus the 123 disputed encodings) substituted by each of {0,1,2,3,4,7,8,0x7f,0x80,0xfe,0xff,0xd8,0xdc} and by its own value +-1..4 (a corrupted format is followed by a data package valid for the original format); every one-byte-length data type x every data length 0..255 with random data; packet headers with every length 0..9 and all message types; every format followed by 2..3 data tokens of its own and the other family; 43 announced packet sizes (negative, tiny, 8, beyond 16 and 32 bits, not numbers); after every response the client sends one more 600-byte request; 18 packages announcing 65535 items that arrive 1..9 bytes per packet; a quarter of the runs re-cut into packets of 1..64 body bytes, a fifth read 1..8 bytes at a time; (seeded) 2- and 4-byte windows overwritten with boundary integers, truncation plus garbage, known token followed by random bytes, format followed by arbitrary row bytes, purely random streams; DebugLogPackages on in a third of the runs; non-trivial = the corrupted bytes reached a package parser (not rejected at the packet layer); distinct = distinct (kind, subject, offset, value) / wire hash"
 }
 func (c10) Components() map[string]string {
 	return map[string]string{"tds (packet reader, Channel, PacketQueue, every package/format/value parser, String methods via debug log), asetypes.GoValue": "real (rewritten)", "transport": "stub: simrt.Conn", "server": "stub: byzantine peer (sim/peer encoders + corruption faults)", "process limits": "worker under ulimit -v, TotalAlloc measured per run"}
